@@ -172,6 +172,16 @@ DoublePushes(q) == {m \in Legal(q) : Kind(q.bd[m.from]) = P /\ (m.to - m.from = 
 EpCycleWith(m0) == WithCycle(game, CycleFrom(Apply(board, m0)), <<m0>>)
 GenPositionEpCycle == IF DoublePushes(board) = {} THEN GenPositionExtend ELSE EpCycleWith(RandomElement(DoublePushes(board)))
 
+\* OLD occurrences: a cycle played twice (its inner positions have then occurred twice), followed by 26 or 30 rounds of
+\* another cycle from the same position - more than a hundred reversible plies later the first move of the first cycle
+\* brings about a position for the third time whose earlier occurrences lie far back in the game (a repetition test that
+\* only looks at a recent window, or stops at a fixed number of plies, is wrong exactly there)
+RECURSIVE RepSeq(_, _)
+RepSeq(c, k) == IF k = 0 THEN <<>> ELSE c \o RepSeq(c, k - 1)
+OldWith(c1, c2, k) == IF c1 = <<>> \/ c2 = <<>> THEN GenPositionExtend
+                      ELSE SetGame([game EXCEPT !.ms = game.ms \o c1 \o c1 \o RepSeq(c2, k)])
+GenPositionOld == OldWith(CycleFrom(board), CycleFrom(board), RandomElement({26, 30}))
+
 \* A, B, A: the game of the position command before the current one is sent again, unchanged or extended
 \* (nothing of B may survive, and nothing may be "continued" from the first A)
 FinalOf(g) == LET h == GameFrom(g.start, g.ms) IN h[Len(h)]
@@ -209,24 +219,27 @@ Menu ==
     \* beyond any plausible "bounded table" of 2^18 entries (seeded change C13d: eviction in hash-map order)
     [] Profile = "heavy" -> <<"extend", "godepth", "godepth">>
     [] Profile = "repetition" -> <<"startpos", "fen", "extend", "shuffle", "shuffle", "cycle", "cycle", "cycle", "cycle", "back",
-                                  "newgame", "rcycle", "rcycle", "epcycle", "again", "twin">>
+                                  "newgame", "rcycle", "rcycle", "epcycle", "again", "twin", "old">>
 Do(w) == CASE w = "uci" -> GenUci [] w = "isready" -> GenIsReady [] w = "newgame" -> GenNewGame [] w = "unknown" -> GenUnknown
            [] w = "startpos" -> GenPositionStartpos [] w = "fen" -> GenPositionFen [] w = "extend" -> GenPositionExtend
            [] w = "shuffle" -> GenPositionShuffle [] w = "cycle" -> GenPositionCycle [] w = "back" -> GenPositionBack
-           [] w = "rcycle" -> GenPositionRCycle [] w = "epcycle" -> GenPositionEpCycle
+           [] w = "rcycle" -> GenPositionRCycle [] w = "epcycle" -> GenPositionEpCycle [] w = "old" -> GenPositionOld
            [] w = "again" -> GenPositionAgain [] w = "againx" -> GenPositionAgainExt [] w = "twin" -> GenPositionTwin
            [] w = "godepth" -> GenGoDepth [] w = "gomovetime" -> GenGoMovetime [] w = "godm" -> GenGoDepthMovetime
            [] w = "goclock" -> GenGoClock [] w = "quit" -> GenQuit [] w = "eof" -> GenEof
-PickFor(k) == LET m == IF k >= MaxCmds THEN <<"quit", "eof">>
-                       ELSE IF k >= (2 * MaxCmds) \div 3 THEN Menu \o <<"quit", "eof">> ELSE Menu
-              IN m[RandomElement(1..Len(m))]
+\* (after a very long game - "old" - the next position command starts a short one again: validating a 130-ply history costs
+\*  TLC as much as a whole ordinary script, one per script is enough)
+PickFor(k, g) == LET m == IF k >= MaxCmds THEN <<"quit", "eof">>
+                          ELSE IF Len(g.ms) > 60 THEN <<"startpos", "fen", "newgame", "twin", "isready">>
+                          ELSE IF k >= (2 * MaxCmds) \div 3 THEN Menu \o <<"quit", "eof">> ELSE Menu
+                 IN m[RandomElement(1..Len(m))]
 
 PrintLast == last.k = "none" \/ PrintT(<<"@@", ToJson(last)>>)
 GNext == /\ PrintLast
          /\ Assert(UciTypeOK /\ BoardValid /\ ExitsCleanly, "Uci.tla invariant violated")
          /\ alive
-         /\ nextw' = PickFor(n + 1)
          /\ IF nextw = "none" THEN GenIsReady      \* (first step: the kind of command 1 was not drawn yet)
             ELSE Do(nextw)
+         /\ nextw' = PickFor(n + 1, game')
 GSpec == GInit /\ [][GNext]_gvars
 =============================================================================
